@@ -380,6 +380,102 @@ let suite_queue t v =
   let served = List.filter_map (fun (s, _) -> s) (Array.to_list h) in
   v.nontrivial <- List.length (List.sort_uniq compare served) >= 2 || List.length served >= 4
 
+
+(* ============================ suite L : transfer logs (C18) ================== *)
+let has_colon l = List.exists (fun c -> int_of_z c = 58) l
+let digits_of_string s = List.init (String.length s) (fun i -> z_of_int (Char.code s.[i]))
+(* strconv.ParseInt(field, 10, 64) with the error ignored, rendered back in decimal (library code, harness glue) *)
+let parse_int_field (f : M.z list) : M.z list =
+  let s = String.concat "" (List.map (fun z -> String.make 1 (Char.chr (int_of_z z land 255))) f) in
+  let ok = String.length s > 0 && (let body = if s.[0] = '-' || s.[0] = '+' then String.sub s 1 (String.length s - 1) else s in
+            String.length body > 0 && String.length body < 19 && String.for_all (fun c -> c >= '0' && c <= '9') body) in
+  if ok then digits_of_string (Z.to_string (Z.of_string s)) else digits_of_string "0"
+
+let suite_log t v =
+  let kind = ni t in
+  let d0 = ni t in
+  let nd = ni t in
+  let days = times nd (fun () ->
+    let off = ni t in
+    let nr = ni t in
+    (off, times nr (fun () ->
+      let n = bytes_of_hex (next t) in let r = bytes_of_hex (next t) in
+      let h = bytes_of_hex (next t) in let sz = next t in (n, r, h, sz)))) in
+  let nq = ni t in
+  let qs = times nq (fun () ->
+    let n = bytes_of_hex (next t) in let h = bytes_of_hex (next t) in
+    let ao = ni t in let asec = ni t in let bo = ni t in let bsec = ni t in (n, h, ao, asec, bo, bsec)) in
+  expect t "=";
+  let raw = List.map (fun (off, _) -> let nl = ni t in (off, times nl (fun () -> bytes_of_hex (next t)))) days in
+  let answers = times nq (fun () -> nb t) in
+  let np = ni t in
+  let iparsed = times np (fun () ->
+    let n = bytes_of_hex (next t) in let r = bytes_of_hex (next t) in let h = bytes_of_hex (next t) in
+    let sz = next t in let tm = next t in (n, r, h, sz, tm)) in
+  let lg = List.map (fun (off, ls) -> (z_of_int (d0 + off), ls)) raw in
+  let colon = ref false in
+  List.iter (fun (_, rs) -> List.iter (fun (n, r, h, _) -> if has_colon n || has_colon r || has_colon h then colon := true) rs) days;
+  List.iter (fun (n, h, _, _, _, _) -> if has_colon n || has_colon h then colon := true) qs;
+  (* what was written, per intention, must be what is on disk (the writer itself) *)
+  List.iter2 (fun (off, rs) (_, ls) ->
+    if List.length rs <> List.length ls then diff v ("written-count@" ^ string_of_int off)
+    else List.iter2 (fun (n, r, h, sz) line ->
+      let ok =
+        if kind = 0 then
+          (match M.parse_line line with
+           | Some ((((pn, pr), ph), psz), _) when not !colon ->
+               M.name_eqb pn n && M.name_eqb pr r && M.name_eqb ph h && M.name_eqb psz (digits_of_string sz)
+           | Some _ -> true
+           | None -> false)
+        else M.line_matches n h line || !colon in
+      if not ok then oracle v "written_line_wrong" false) rs ls) days raw;
+  (* look-ups *)
+  List.iteri (fun k ((n, h, ao, asec, bo, bsec), ia) ->
+    let start = z_of_int ((d0 + ao) * 86400 + asec) and stop = z_of_int ((d0 + bo) * 86400 + bsec) in
+    let ma = M.search lg n h start stop in
+    if ma <> ia then diff v ("lookup@" ^ string_of_int k);
+    let lo = min (d0 + ao) (d0 + bo) and hi = max (d0 + ao) (d0 + bo) in
+    let exact_on pred = List.exists (fun (off, rs) ->
+      pred (d0 + off) && List.exists (fun (rn, _, rh, _) -> M.name_eqb rn n && (h = [] || M.name_eqb rh h)) rs) days in
+    let empty_window = M.Z.eqb start stop in
+    if ia && not (exact_on (fun d -> d >= lo - 1 && d <= hi + 1)) then
+      oracle v (if !colon then "lookup_false_positive_colon_name" else "lookup_false_positive") ma;
+    if (not ia) && n <> [] && not empty_window && exact_on (fun d -> d >= lo && d <= hi) then
+      oracle v (if !colon then "lookup_missed_colon_name" else "lookup_missed") (not ma);
+    if ma && not (exact_on (fun d -> d >= lo - 1 && d <= hi + 1)) then v.model_fails <- true;
+    if (not ma) && n <> [] && not empty_window && exact_on (fun d -> d >= lo && d <= hi) then v.model_fails <- true)
+    (List.combine qs answers);
+  (* replay *)
+  if kind = 0 then begin
+    let sorted = List.sort (fun (a, _) (b, _) -> compare a b) (List.combine (List.map fst days) (List.map snd raw)) in
+    let mparsed = List.concat (List.map (fun (_, ls) -> List.filter_map (fun l -> M.parse_line l) ls) sorted) in
+    let intended = List.concat (List.map (fun (_, rs) -> rs) (List.sort (fun (a, _) (b, _) -> compare a b) days)) in
+    let same_m = List.length mparsed = List.length iparsed &&
+      List.for_all2 (fun ((((pn, pr), ph), psz), ptm) (n, r, h, sz, tm) ->
+        M.name_eqb pn n && M.name_eqb pr r && M.name_eqb ph h &&
+        M.name_eqb (parse_int_field psz) (digits_of_string sz) && M.name_eqb (parse_int_field ptm) (digits_of_string tm)) mparsed iparsed in
+    if not same_m then diff v "replay";
+    let same_i = List.length intended = List.length iparsed &&
+      List.for_all2 (fun (n, r, h, sz) (pn, pr, ph, psz, _) ->
+        M.name_eqb pn n && M.name_eqb pr r && M.name_eqb ph h && sz = psz) intended iparsed in
+    if not same_i then oracle v (if !colon then "replay_wrong_colon_name" else "replay_wrong") same_m;
+    let model_ok = List.length intended = List.length mparsed &&
+      List.for_all2 (fun (n, r, h, sz) ((((pn, pr), ph), psz), _) ->
+        M.name_eqb pn n && M.name_eqb pr r && M.name_eqb ph h && M.name_eqb psz (digits_of_string sz)) intended mparsed in
+    if not model_ok then v.model_fails <- true
+  end;
+  v.cls <- (if !colon then "F" else "D");
+  v.nontrivial <- List.exists (fun a -> a) answers && List.exists (fun a -> not a) answers
+
+let suite_log_conc t v =
+  let n = ni t in
+  let expected = times n (fun () -> next t) in
+  expect t "=";
+  let m = ni t in
+  let found = times m (fun () -> next t) in
+  if List.sort compare expected <> List.sort compare found then oracle v "interleaved_or_lost_line" false;
+  v.cls <- "D"; v.nontrivial <- true
+
 (* ============================ dispatch ====================================== *)
 let run_line line =
   let t = mk line in
@@ -389,6 +485,8 @@ let run_line line =
       | "R" -> suite_ranges t v
       | "K" -> suite_chunk t v
       | "Q" -> suite_queue t v
+      | "L" -> suite_log t v
+      | "LC" -> suite_log_conc t v
       | s -> raise (Malformed ("unknown suite " ^ s)))
    with
    | Malformed s -> diff v ("malformed:" ^ s)
